@@ -10,6 +10,8 @@ for fn in sorted(os.listdir(os.path.join(HOME, 'checks'))):
     if not (fn.startswith('c') and fn.endswith('.py')):
         continue
     pid = fn[:-3].upper()
+    if pid not in meta.get('claimed', []):
+        continue
     src = open(os.path.join(HOME, 'checks', fn)).read()
     ns = {}
     # metadata only: evaluate the MANIFEST literal without importing pony
